@@ -101,6 +101,11 @@ CORPUS += [
 S_ = "rl4co/envs/scheduling/"
 CORPUS += [
     # ---------------------------------------------------------------- C02
+    V("C02", "fjsp-advance-when-actions-open", S_ + "fjsp/env.py", 'return ~reduce(td["action_mask"], "bs ... -> bs", "any") & ~dones', 'return reduce(td["action_mask"], "bs ... -> bs", "any") & ~dones', 'C02.h'),
+    V("C02", "fjsp-advance-finished-only", S_ + "fjsp/env.py", 'return ~reduce(td["action_mask"], "bs ... -> bs", "any") & ~dones', 'return ~reduce(td["action_mask"], "bs ... -> bs", "any") & dones', 'C02.h'),
+    V("C02", "fjsp-advance-or-unfinished", S_ + "fjsp/env.py", 'return ~reduce(td["action_mask"], "bs ... -> bs", "any") & ~dones', 'return ~reduce(td["action_mask"], "bs ... -> bs", "any") | ~dones', 'C02.h'),
+    V("C02", "eq-fjsp-advance-without-dones", S_ + "fjsp/env.py", 'return ~reduce(td["action_mask"], "bs ... -> bs", "any") & ~dones', 'return ~reduce(td["action_mask"], "bs ... -> bs", "any")', None),
+    V("C02", "eq-fjsp-advance-method-any", S_ + "fjsp/env.py", 'return ~reduce(td["action_mask"], "bs ... -> bs", "any") & ~dones', 'return ~td["action_mask"].any(-1) & ~dones', None),
     V("C02", "fjsp-wait-always-open", S_ + "fjsp/env.py", 'td["job_in_process"].any(1, keepdims=True) & (~td["done"])', 'td["job_in_process"].any(1, keepdims=True) | (~td["done"])', "C02.g"),
     V("C02", "jssp-wait-always-open", S_ + "jssp/env.py", 'td["job_in_process"].any(1, keepdims=True) & (~td["done"])', 'td["job_in_process"].any(1, keepdims=True) | (~td["done"])', "C02.g"),
     V("C02", "fjsp-wait-open-when-idle", S_ + "fjsp/env.py", 'td["job_in_process"].any(1, keepdims=True) & (~td["done"])', '(~td["job_in_process"].any(1, keepdims=True)) & (~td["done"])', "C02.g"),
@@ -133,6 +138,17 @@ CORPUS += [
 G_ = "rl4co/envs/graph/"
 CORPUS += [
     # ---------------------------------------------------------------- C03
+    V("C03", "ffsp-end-minus-duration", S_ + "ffsp/env.py", 'td["schedule"] + td["job_duration"].permute(0, 2, 1)', 'td["schedule"] - td["job_duration"].permute(0, 2, 1)', 'C03.d'),
+    V("C03", "ffsp-duration-not-transposed", S_ + "ffsp/env.py", 'td["schedule"] + td["job_duration"].permute(0, 2, 1)', 'td["schedule"] + td["job_duration"].permute(0, 1, 2)', 'C03.d'),
+    V("C03", "ffsp-dummy-job-included", S_ + "ffsp/env.py", 'end_schedule[:, :, : self.num_job].max(dim=-1)', 'end_schedule.max(dim=-1)', 'C03.d'),
+    V("C03", "ffsp-earliest-job", S_ + "ffsp/env.py", 'end_schedule[:, :, : self.num_job].max(dim=-1)', 'end_schedule[:, :, : self.num_job].min(dim=-1)', 'C03.d'),
+    V("C03", "ffsp-max-over-machines-first", S_ + "ffsp/env.py", 'end_schedule[:, :, : self.num_job].max(dim=-1)', 'end_schedule[:, :, : self.num_job].max(dim=1)', 'C03.d'),
+    V("C03", "ffsp-makespan-over-batch", S_ + "ffsp/env.py", 'end_time_max, _ = end_time_max.max(dim=-1)', 'end_time_max, _ = end_time_max.max(dim=0)', 'C03.d'),
+    V("C03", "ffsp-makespan-global", S_ + "ffsp/env.py", 'end_time_max, _ = end_time_max.max(dim=-1)', 'end_time_max = end_time_max.max()', 'C03.d'),
+    V("C03", "eq-ffsp-makespan-values", S_ + "ffsp/env.py", 'end_time_max, _ = end_time_max.max(dim=-1)', 'end_time_max = end_time_max.max(dim=-1).values', None),
+    V("C03", "eq-ffsp-makespan-amax", S_ + "ffsp/env.py", 'end_time_max, _ = end_time_max.max(dim=-1)', 'end_time_max = end_time_max.amax(-1)', None),
+    V("C03", "eq-ffsp-makespan-torch-max", S_ + "ffsp/env.py", 'end_time_max, _ = end_time_max.max(dim=-1)', 'end_time_max = torch.max(end_time_max, dim=1)[0]', None),
+    V("C03", "eq-ffsp-end-commuted", S_ + "ffsp/env.py", 'td["schedule"] + td["job_duration"].permute(0, 2, 1)', 'td["job_duration"].transpose(1, 2) + td["schedule"]', None),
     V("C03", "cvrp-reward-no-depot", R + "cvrp/env.py", '''        locs_ordered = torch.cat(
             [
                 td["locs"][..., 0:1, :],  # depot
@@ -265,6 +281,14 @@ CORPUS += [
     V("C07", "fjsp-job-done-and", FJ_, 'td["job_done"] = td["job_done"] + job_finished', 'td["job_done"] = td["job_done"] & job_finished', "C07.d"),
     V("C07", "eq-fjsp-job-done-or", FJ_, 'td["job_done"] = td["job_done"] + job_finished', 'td["job_done"] = job_finished | td["job_done"]', None),
     V("C07", "eq-fjsp-job-finished-swapped", FJ_, 'job_finished = op_finished & (td["next_op"] == end_op_per_job)', 'job_finished = (end_op_per_job == td["next_op"]) & op_finished', None),
+    V("C07", "fjsp-wait-applied-to-finished-only", S_ + "fjsp/env.py", 'no_op = no_op & ~dones', 'no_op = no_op & dones', 'C07.g'),
+    V("C07", "fjsp-transit-for-all-unfinished", S_ + "fjsp/env.py", 'no_op = no_op & ~dones', 'no_op = no_op | ~dones', 'C07.g'),
+    V("C07", "fjsp-step-for-waiting-rows", S_ + "fjsp/env.py", 'req_op = ~no_op & ~dones', 'req_op = no_op & ~dones', 'C07.g'),
+    V("C07", "fjsp-step-for-finished-rows", S_ + "fjsp/env.py", 'req_op = ~no_op & ~dones', 'req_op = ~no_op', 'C07.g'),
+    V("C07", "fjsp-step-or-unfinished", S_ + "fjsp/env.py", 'req_op = ~no_op & ~dones', 'req_op = ~no_op | ~dones', 'C07.g'),
+    V("C07", "fjsp-write-back-other-rows", S_ + "fjsp/env.py", 'td[req_op] = td_op', 'td[~no_op] = td_op', 'C07.g'),
+    V("C07", "eq-fjsp-wait-mask-without-dones", S_ + "fjsp/env.py", '        no_op = no_op & ~dones\n', '', None),
+    V("C07", "eq-fjsp-dispatch-ne", S_ + "fjsp/env.py", 'req_op = ~no_op & ~dones', 'req_op = td["action"].ne(NO_OP_ID) & ~dones', None),
     V("C07", "fjsp-makespan-sentinel-mask", FJ_, '-td["finish_times"].masked_fill(td["pad_mask"], -torch.inf).max(1).values', '-td["finish_times"].masked_fill(td["finish_times"] >= 9999, -torch.inf).max(1).values', "C07.f"),
 ]
 
